@@ -38,8 +38,8 @@ CLAIMED = {
     technique='Coq proof (matcher soundness/completeness -> glob relation) + correspondence',
     design='6 C08'),
  'C09': dict(
-    text='Theorems: segment-wise comparison is a strict total order; sort_paths sorts; group_firsts over the descending order returns exactly one entry per distinct prefix before the ">" position, the greatest of its group; composed for sorted_search. Differential run + oracle over universes with names containing "-", ".", "+", "_" and prefix-related names, ">" at every position, optional second ">".',
-    note=TB + 'List-backed finder proved; FindInPaths / FindInAll / get_last use the same generic sorted_search in the model and are tied by the file-system correspondence (C11/C18 checks).',
+    text='Theorems: segment-wise comparison is a strict total order; sort_paths sorts; group_firsts over the descending order returns exactly one entry per distinct prefix before the ">" position, the greatest of its group; composed for sorted_search; over a data set materialised as a tree the tree finder, the list finder and FindInAll (routed to the path finder) return the identical list for a ">" search (guards computed, instantiated on the live configuration). Differential run + oracle over universes with names containing "-", ".", "+", "_" and prefix-related names, ">" at every position, optional second ">".',
+    note=TB + 'FindInAll across several finders, find_one and get_last are tied by the file-system stream of this check (real trees: FindInPaths, FindInAll find / find_one, FindInList, Sid.get_last) and by the C18 theorems.',
     technique='Coq proof (order + sort + groupby) + correspondence',
     design='6 C09'),
  'C10': dict(
